@@ -25,6 +25,7 @@ def run(ctx):
     strs = list(gens.delimiter_strings(3 if ctx.quick else 4))
     strs += gens.soup_urls(rng, 4000 if ctx.quick else 60000)
     strs += ["http://[]/", "http://[", "http://]", "x://:80/", "//:", "//@", "//@:", "http://@/", "http://:@/", "[", "]", "%", ":", "//[::1", "//::1]",
+             "http://%aB:%cE@h/%Fd/%eA.%bC?%aB=%Cd&k=%fA#%Ef", "/%aB%cE", "?%Fd", "#%aB",
              "http://[v]/", "http://[v1.]/", "http://[vg.x]/", "http://[1.2.3.4]/", "http://h:" + "9" * 300, "a" * 3000, "%" * 2000,
              "http://" + "a." * 300 + "com/", "/" * 3000, "http://h/" + "../" * 1000, "?" + "&" * 3000, "%41" * 700, "http://h/%2E" * 300]
     # inputs too large for the (deliberately naive) extracted model: implementation only
